@@ -30,7 +30,7 @@ def check(ctx):
     ctx.floor("twin_pairs", 3)
     # ---------------- take/shuffle: the narrow integer dtype of the per-chunk index arrays must hold every in-chunk offset
     import ast as _ast
-    from ..lib import calls, unparse, find, walk_no_nested, dominates
+    from ..lib import calls, unparse, find, walk_no_nested, dominates, eqv
 
     for rel, q in (("dask/array/_shuffle.py", "_shuffle"), ("dask/array/_array_expr/_shuffle.py", "Shuffle._layer")):
         f = ctx.model.module(rel).func(q)
